@@ -24,9 +24,16 @@ FsA == {Bin("+", M, A), Bin("+", Bin("*", M, Num(2)), A), Bin("%", Bin("+", M, A
 FsC == {CondE(Bin("<", M, Num(10)), Bin("+", M, Num(1))), CondE(Bin("!=", M, Num(5)), Bin("+", M, Num(1))),
         Bin("+", CondE(Bin("<", M, Num(5)), Bin("+", M, Num(1))), CondE(Bin(">=", M, Num(5)), Num(0))),
         Bin("<", M, Num(1)), Bin("==", M, Num(0))}
+\* readers of the cell that come BEFORE the write statement (the order of statements must not matter to the loop)
+PE(grp, f, early, ins) ==
+  LET stmts == ins \o <<SMem("m", TM)>> \o early \o <<SWrite("m", f, "plain", Num(0), Num(0)), SLet("Signal", "o", M)>>
+  IN [grp |-> grp, stmts |-> stmts, src |-> Render(stmts), dom |-> <<-3, 0, 1, 2, 7>>]
+EarlyR == {<<SLet("Signal", "d", Bin("*", M, Num(2)))>>, <<SLet("Signal", "d", Bin("+", M, Num(5))), SLet("Signal", "g", Bin(">", M, Num(3)))>>, <<SLet("Signal", "d", M)>>}
+Early == {PE("early", f, er, <<>>) : f \in {Bin("+", M, Num(1)), Bin("-", Num(10), M), Bin("%", Bin("+", M, Num(1)), Num(10)), Bin("*", Bin("+", M, Num(1)), Num(2))}, er \in EarlyR}
+     \cup {PE("early", Bin("+", M, A), er, <<InA>>) : er \in EarlyR}
 Extra2 == <<SLet("Signal", "p", Bin("+", M, Num(1)))>>
 Extra3 == <<SLet("Signal", "p", Bin("*", M, Num(2))), SLet("Signal", "q", Bin(">", M, Num(3)))>>
-All == {P("const", f, <<>>, <<>>) : f \in Fs1} \cup {P("input", f, <<>>, <<InA>>) : f \in FsA} \cup {P("cond", f, <<>>, <<>>) : f \in FsC}
+All == Early \cup {P("const", f, <<>>, <<>>) : f \in Fs1} \cup {P("input", f, <<>>, <<InA>>) : f \in FsA} \cup {P("cond", f, <<>>, <<>>) : f \in FsC}
    \cup {P("readers", f, Extra2, <<>>) : f \in {Bin("+", M, Num(1)), Bin("%", Bin("+", M, Num(1)), Num(10)), CondE(Bin("<", M, Num(10)), Bin("+", M, Num(1)))}}
    \cup {P("readers", f, Extra3, <<InA>>) : f \in {Bin("+", M, A), Bin("AND", Bin("+", Bin("*", M, Num(5)), Num(3)), Num(255))}}
 ASSUME PrintT(<<"NPROGS", Cardinality(All)>>)
